@@ -59,6 +59,106 @@ theorem indexOfStop_eq (stop : List Bool) (i j : Nat) (hij : i ≤ j) (hj : j < 
     rw [h2] at this; simp at this
     simp [this]
 
+/-! ### counting set bits -/
+
+theorem setRange_cons {α} (x : α) (xs : List α) (s e : Nat) (v : α) :
+    setRange (x :: xs) s e v = (if s = 0 ∧ 0 < e then v else x) :: setRange xs (s - 1) (e - 1) v := by
+  unfold setRange
+  simp [List.mapIdx_cons]
+  apply List.mapIdx_eq_mapIdx_iff.mpr
+  intro i hi
+  split <;> split <;> first | rfl | (exfalso; omega)
+
+theorem bit_cons_succ (x : Bool) (xs : List Bool) (i : Nat) : bit (x :: xs) (i + 1) = bit xs i := by
+  simp [bit, List.getD]
+
+theorem bit_cons_zero (x : Bool) (xs : List Bool) : bit (x :: xs) 0 = x := by
+  simp [bit, List.getD]
+
+theorem count_setRange_true (l : List Bool) : ∀ (s e : Nat), s ≤ e → e ≤ l.length → (∀ j, s ≤ j → j < e → bit l j = false) →
+    (setRange l s e true).count true = l.count true + (e - s) := by
+  induction l with
+  | nil => intro s e h1 h2 _; simp at h2; subst h2; simp [setRange]
+  | cons x xs ih =>
+    intro s e h1 h2 hf
+    rw [setRange_cons]
+    simp at h2
+    by_cases he : e = 0
+    · subst he
+      have : s = 0 := by omega
+      subst this
+      have := ih 0 0 (by omega) (by omega) (by intro j _ h; omega)
+      simp [List.count_cons] at this ⊢
+      omega
+    have ih' := ih (s - 1) (e - 1) (by omega) (by omega) (by
+      intro j a c
+      have := hf (j + 1) (by omega) (by omega)
+      rwa [bit_cons_succ] at this)
+    by_cases hs : s = 0
+    · subst hs
+      have h0 := hf 0 (by omega) (by omega)
+      rw [bit_cons_zero] at h0
+      subst h0
+      simp [he, Nat.pos_of_ne_zero he, List.count_cons]
+      simp at ih'
+      rw [ih']; omega
+    · simp [hs, List.count_cons]
+      rw [ih']; omega
+
+theorem count_setRange_false (l : List Bool) : ∀ (s e : Nat), s ≤ e → e ≤ l.length → (∀ j, s ≤ j → j < e → bit l j = true) →
+    (setRange l s e false).count true + (e - s) = l.count true := by
+  induction l with
+  | nil => intro s e h1 h2 _; simp at h2; subst h2; simp [setRange]
+  | cons x xs ih =>
+    intro s e h1 h2 hf
+    rw [setRange_cons]
+    simp at h2
+    by_cases he : e = 0
+    · subst he
+      have : s = 0 := by omega
+      subst this
+      have := ih 0 0 (by omega) (by omega) (by intro j _ h; omega)
+      simp [List.count_cons] at this ⊢
+      omega
+    have ih' := ih (s - 1) (e - 1) (by omega) (by omega) (by
+      intro j a c
+      have := hf (j + 1) (by omega) (by omega)
+      rwa [bit_cons_succ] at this)
+    by_cases hs : s = 0
+    · subst hs
+      have h0 := hf 0 (by omega) (by omega)
+      rw [bit_cons_zero] at h0
+      subst h0
+      simp [he, Nat.pos_of_ne_zero he, List.count_cons]
+      simp at ih'
+      omega
+    · simp [hs, List.count_cons]
+      omega
+
+theorem count_replicate_set (n : Nat) (v : Bool) :
+    ((List.replicate n false).set 0 v).count true = if v = true ∧ 0 < n then 1 else 0 := by
+  cases n with
+  | zero => simp
+  | succ n => cases v <;> simp [List.replicate_succ, List.count_cons, List.count_replicate]
+
+/-- a set bit contributes to the count -/
+theorem count_pos_of_bit (l : List Bool) : ∀ i, bit l i = true → 1 ≤ l.count true := by
+  induction l with
+  | nil => intro i h; simp [bit] at h
+  | cons x xs ih =>
+    intro i h
+    cases i with
+    | zero => rw [bit_cons_zero] at h; subst h; simp [List.count_cons]
+    | succ i => rw [bit_cons_succ] at h; have := ih i h; simp [List.count_cons]; omega
+
+theorem count_two_of_bits (l : List Bool) (i : Nat) (h0 : bit l 0 = true) (hi : bit l (i + 1) = true) : 2 ≤ l.count true := by
+  cases l with
+  | nil => simp [bit] at h0
+  | cons x xs =>
+    rw [bit_cons_zero] at h0; rw [bit_cons_succ] at hi
+    have := count_pos_of_bit xs i hi
+    subst h0; rw [List.count_cons_self]; omega
+
 /-! ### soundness of the free-range scan -/
 
 theorem close_run (a : ScanAcc) (i : Nat) : (a.close i).run = 0 := by
